@@ -14,13 +14,22 @@
                        path of doCompute or Size can take its next step, and that
                        step is a load which changes nothing shared (also C16 for
                        the Map variant)
+     C03_resize_protocol    on XMachineS, every reachable state: a thread that has
+                       returned holds neither resizeMu nor the resizer role; resizeMu
+                       has one holder; the resizing flag is set exactly while one
+                       thread is between winning the CAS and resetting it (through
+                       all the lockBucket / copy / unlockBucket steps of the copy);
+                       a thread is in the wait set of resizeCond only while the
+                       flag is set or the waking broadcast is still to come (no
+                       lost wake-up) -- also for calls made by a Range visitor
+                       from inside the Range (C13 for the Map variant)
    No invariant about the cells of XMachineS is proved yet (MapOf's are: C04);
    the concurrent behaviour of map.go is decided by the step correspondence and by search: the real code under
    the controlled scheduler (random / PCT schedules at the granularity of single
    atomic operations, tables at the grow / shrink thresholds, Clear), every
    history checked for linearizability against map[string]interface{}. *)
 From CacheV Require Import Base SpecMap TableModel TabExec Exec XMachineS.
-From CacheV.proofs Require Import C11_lists C11_table C11_idx X_maps.
+From CacheV.proofs Require Import C11_lists C11_table C11_idx X_maps XS_inv.
 From Coq Require Import NArith.
 
 Theorem C03_sequential :
@@ -47,6 +56,17 @@ Theorem C03_reads_never_block :
       /\ sshared_eq s s' /\ (forall t', t' <> t -> h_pc s' t' = h_pc s t') /\ Forall (sread_label t) ls.
 Proof. exact @map_reads_never_block. Qed.
 Print Assumptions C03_reads_never_block.
+
+Theorem C03_resize_protocol :
+  forall (K V : Type) (eqd : forall a b : K, {a = b} + {a <> b}) hash idx tophash nslots seeds g sh nstripes minlen grow_only len0 todo sched,
+    let s := fst (@srun K V eqd hash idx tophash nslots seeds g sh nstripes minlen grow_only (sinit nslots seeds nstripes len0 todo) sched) in
+    (forall t, h_pc s t = QIdle -> h_rmu s <> Some t /\ (h_resizing s = true -> exists t', t' <> t /\ srz (h_pc s t') = true))
+    /\ (forall t t', smu (h_pc s t) = true -> smu (h_pc s t') = true -> t = t')
+    /\ (forall t t', srz (h_pc s t) = true -> srz (h_pc s t') = true -> t = t')
+    /\ (h_resizing s = true <-> exists t, srz (h_pc s t) = true)
+    /\ (forall t hn kt, h_pc s t = QT_Waiting hn kt -> h_resizing s = true \/ exists t', sbcast (h_pc s t') = true).
+Proof. exact @map_resize_protocol. Qed.
+Print Assumptions C03_resize_protocol.
 
 (* non-vacuity: a writer holds the bucket lock of key 7 (it is past the CAS), a reader of key 7 is on the read path *)
 Definition ex_run03 : @mstate nat nat :=
